@@ -7,6 +7,7 @@ def text_edit(old, new):
         return src.replace(old, new, 1) if old in src else None
     return edit
 MUTANTS = [
+    Mutant('trans3_kept_for_advan11', 'src/pharmpy/model/external/nonmem/update.py', text_edit("        if advan in ['ADVAN3', 'ADVAN4']:\n            trans = oldtrans\n        elif advan in ['ADVAN11', 'ADVAN12']:\n            trans = 'TRANS4'", "        if advan in ['ADVAN3', 'ADVAN4', 'ADVAN11', 'ADVAN12']:\n            trans = oldtrans\n        elif False:\n            trans = 'TRANS4'"), 'B16', 'TRANS3 with ADVAN11'),
     Mutant('print_add_drops_multi_rv', 'src/pharmpy/model/external/nonmem/records/code_record.py', text_edit("                            terms_ruv.append(arg)\n                            continue\n                    terms_iiv_iov.append(arg)", "                            terms_ruv.append(arg)\n                        else:\n                            terms_iiv_iov.append(arg)"), 'B14', 'multi-rv term in no list'),
     Mutant('mod_one_arg', C, text_edit("        return f'MOD({self.doprint(expr.args[0])},{self.doprint(expr.args[1])})'", "        return f'MOD({self.doprint(expr.args[0])})'"), 'B8', 'second argument of MOD dropped'),
     Mutant('gamln_as_loggamma', C, text_edit("        return f'GAMLN({self.doprint(expr.args[0])})'", "        return f'LOGGAMMA({self.doprint(expr.args[0])})'"), 'B8', 'not an NM-TRAN function'),
